@@ -76,6 +76,9 @@ func expandToken(tx plugintypes.TransactionState, token macroToken) string {
 		}
 	case collection.Single:
 		return col.Get()
+	case nil:
+		// The transaction has no collection behind this variable (e.g. JSON):
+		// there is nothing to expand, the original text is returned below.
 	default:
 		if c := col.FindAll(); len(c) > 0 {
 			return c[0].Value()
